@@ -1,17 +1,25 @@
 package sim
 
 import (
+	"archive/tar"
+	"bytes"
 	"fmt"
+	"io"
+	"io/fs"
 	"math/rand/v2"
 	"os"
 	"sort"
 	"strings"
 	"testing"
+	"time"
+
+	"github.com/pojntfx/stfs/pkg/config"
 )
 
 var faultSeams = []string{
 	"drive.write", "drive.read", "drive.seek", "drive.stat", "drive.openfile", "drive.open",
 	"index.any", "cache.new", "cache.write", "cache.read", "cache.seek", "cache.size", "cache.truncate",
+	"source.open", "source.read", "source.seek", "source.close", "sink.open", "sink.write", "sink.close",
 }
 
 // genShortHistory: 1-4 calls of every kind (including calls that are rejected),
@@ -31,7 +39,7 @@ func genShortHistory(r *rand.Rand, rs int) []Op {
 	}
 	n := 1 + r.IntN(3)
 	for i := 0; i < n; i++ {
-		switch r.IntN(14) {
+		switch r.IntN(16) {
 		case 0:
 			ops = append(ops, Op{K: "mkdir", P: pick(), M: 0o755})
 		case 1:
@@ -74,6 +82,11 @@ func genShortHistory(r *rand.Rand, rs int) []Op {
 			ops = append(ops, Op{K: "h.close", H: 2})
 		case 13:
 			ops = append(ops, Op{K: "symlink", P: "/a", Q: "/lnk"})
+		case 14: // batched Operations.Archive fed by caller-supplied data sources
+			tag += 10
+			ops = append(ops, Op{K: "archive", P: "/", N: 1 + r.IntN(3), D: &Data{Len: 1 + r.IntN(3000), Kind: "text", Tag: tag}})
+		case 15: // Operations.Restore into a caller-supplied sink
+			ops = append(ops, Op{K: "restore", P: pick()})
 		}
 	}
 	return ops
@@ -270,7 +283,14 @@ func runFaultedChecked(t *testing.T, c *Case, st *Stats, relax Relax, faults []F
 		w.Dev.ResetCounts()
 		w.Dev.SetPlan(faults)
 		for _, op := range c.Ops {
-			ex.Do(op)
+			switch op.K {
+			case "archive":
+				faultyArchive(stk, op)
+			case "restore":
+				faultyRestore(stk, op)
+			default:
+				ex.Do(op)
+			}
 			if snaps != nil {
 				*snaps = append(*snaps, w.Dev.Snapshot())
 			}
@@ -308,3 +328,85 @@ func runFaultedChecked(t *testing.T, c *Case, st *Stats, relax Relax, faults []F
 }
 
 var _ = os.Getenv
+
+// ---- caller-supplied data sources and sinks with fault seams
+
+type faultySource struct {
+	r *bytes.Reader
+	d *Devices
+}
+
+func (f *faultySource) Read(p []byte) (int, error) {
+	if _, ok := f.d.hit("source.read"); ok {
+		return 0, ErrInjected
+	}
+	if len(p) > 700 {
+		p = p[:700] // short reads are legal for an io.Reader
+	}
+	return f.r.Read(p)
+}
+func (f *faultySource) Seek(o int64, w int) (int64, error) {
+	if _, ok := f.d.hit("source.seek"); ok {
+		return 0, ErrInjected
+	}
+	return f.r.Seek(o, w)
+}
+func (f *faultySource) Close() error {
+	if _, ok := f.d.hit("source.close"); ok {
+		return ErrInjected
+	}
+	return nil
+}
+
+func faultyArchive(st *Stack, op Op) error {
+	members := archiveMembers(op)
+	i := 0
+	d := st.W.Dev
+	_, err := st.Write.Archive(func() (config.FileConfig, error) {
+		if i >= len(members) {
+			return config.FileConfig{}, io.EOF
+		}
+		m := members[i]
+		i++
+		b := m.D.Bytes()
+		hdr := &tar.Header{Typeflag: tar.TypeReg, Name: m.P, Size: int64(len(b)), Mode: 0o644, ModTime: time.Now()}
+		return config.FileConfig{
+			GetFile: func() (io.ReadSeekCloser, error) {
+				if _, ok := d.hit("source.open"); ok {
+					return nil, ErrInjected
+				}
+				return &faultySource{r: bytes.NewReader(b), d: d}, nil
+			},
+			Info: hdr.FileInfo(), Path: m.P,
+		}, nil
+	}, st.Cfg.Level, false, false)
+	return err
+}
+
+type faultySink struct{ d *Devices }
+
+func (f *faultySink) Write(p []byte) (int, error) {
+	if _, ok := f.d.hit("sink.write"); ok {
+		return 0, ErrInjected
+	}
+	return len(p), nil
+}
+func (f *faultySink) Close() error {
+	if _, ok := f.d.hit("sink.close"); ok {
+		return ErrInjected
+	}
+	return nil
+}
+
+func faultyRestore(st *Stack, op Op) error {
+	d := st.W.Dev
+	return st.Read.Restore(
+		func(p string, m fs.FileMode) (io.WriteCloser, error) {
+			if _, ok := d.hit("sink.open"); ok {
+				return nil, ErrInjected
+			}
+			return &faultySink{d: d}, nil
+		},
+		func(p string, m fs.FileMode) error { return nil },
+		op.P, "", true)
+}
